@@ -285,3 +285,19 @@ val set_test : nat list -> conflict0 -> conflict0
 
 val diagnostics_tf :
   bool -> range list -> bool -> nat list -> conflict0 list -> diag list
+
+type str = nat list
+
+val has_prefix : str -> str -> bool
+
+val comma : nat
+
+val split_comma : str -> str -> str list
+
+val includes_of_flag : str -> str list
+
+val excludes_of_flag : str -> str list
+
+val is_pkg_in_scope : str list -> str list -> str -> bool
+
+val in_scope_flags : str -> str -> str -> bool
